@@ -129,6 +129,13 @@ static inline void x86_ld_store (uint64_t a, long double v) {
 }
 #endif
 
+/* fabs: clears the sign bit, also of a NaN */
+#ifdef LIFT_RT_LD_IS_CBMC
+static inline long double x86_fabs (long double v) { return __CPROVER_fabsl (v); }
+#else
+static inline long double x86_fabs (long double v) { x86_ld_bits x; x.ld = v; x.p.hi &= 0x7fff; return x.ld; }
+#endif
+
 /* ---- partial register writes ---- */
 static inline void x86_w8 (x86_state *s, int r, uint8_t v) { s->r[r] = (s->r[r] & ~(uint64_t) 0xff) | v; }
 static inline void x86_w16 (x86_state *s, int r, uint16_t v) { s->r[r] = (s->r[r] & ~(uint64_t) 0xffff) | v; }
